@@ -113,7 +113,7 @@ func runC13Race(c *core.Ctx) {
 	var scs []sc
 	for _, v := range []int{1, 2} {
 		for _, n := range []int{1, 2, 4, 16, 64} {
-			scs = append(scs, sc{v, n, "never", 2}, sc{v, n, "concurrent", 5}, sc{v, n, "before", 2}, sc{v, n, "concurrent-unattainable", 243})
+			scs = append(scs, sc{v, n, "never", 2}, sc{v, n, "concurrent", 5}, sc{v, n, "before", 2}, sc{v, n, "concurrent-unattainable", 243}, sc{v, n, "deadline-unattainable", 243}, sc{v, n, "expired-deadline", 2})
 		}
 	}
 	for _, s := range scs {
@@ -129,6 +129,12 @@ func runC13Race(c *core.Ctx) {
 			ctx, cancel := context.WithCancel(context.Background())
 			if s.cancel == "before" {
 				cancel()
+			}
+			if s.cancel == "deadline-unattainable" { // the context ends by its deadline, nobody calls cancel
+				ctx, cancel = context.WithTimeout(context.Background(), time.Duration(50+i%5*100)*time.Microsecond)
+			}
+			if s.cancel == "expired-deadline" {
+				ctx, cancel = context.WithDeadline(context.Background(), time.Now().Add(-time.Hour))
 			}
 			if strings.HasPrefix(s.cancel, "concurrent") {
 				go func(d time.Duration) { time.Sleep(d); cancel() }(time.Duration(i%7) * 50 * time.Microsecond)
